@@ -425,6 +425,22 @@ pub fn replay(case: &Value) -> Option<(String, bool)> {
         let got = crate::oracle::run_impl(&e, &value_to_var(dd)).sem();
         return Some((format!("through compile(): {} ; through Expression::new({:?}, ..): {}", via_compile, label, got), got != via_compile));
     }
+    if case["kind"] == json!("unregistered") && case["expression"].is_string() {
+        // the expression on the runtime the case names: every builtin but `name`, or the builtins plus `cf`
+        let src = case["expression"].as_str()?;
+        let name = case["name"].as_str()?;
+        let mut rt = jmespath::Runtime::new();
+        rt.register_builtin_functions();
+        let want_unknown = case["runtime"] == json!("all builtins but this one");
+        if want_unknown {
+            rt.deregister_function(name);
+        } else {
+            rt.register_function("cf", Box::new(|args: &[jmespath::Rcvar], _: &mut jmespath::Context<'_>| Ok(args[0].clone())));
+        }
+        let r = guarded(|| rt.compile(src).unwrap().search(1).map(|v| v.to_string()).map_err(|e| crate::implx::classify(&e)));
+        let bad = if want_unknown { !matches!(&r, Ok(Err(crate::implx::IClass::Rt(crate::reval::ErrClass::UnknownFunction)))) } else { !matches!(&r, Ok(Ok(_))) };
+        return Some((format!("{} on the runtime '{}': {:?}", src, case["runtime"].as_str().unwrap_or(""), r), bad));
+    }
     let mut st = Stats::default();
     check_call_expr(case["expression"].as_str()?, &case["document"], "replay", &mut st);
     Some(match st.violations.first() {
